@@ -315,7 +315,9 @@ def r3_cut_agree(c, facts):
     # the casts must tolerate Recursion wherever a recursible tag is admitted: C01.R1 (shared obligation, not repeated here)
     # uncuttable SCC -> Err
     ok = False
-    for e, anc in hir_walk(cyc.hir['body']):
+    known = facts.known_fns_or_aliases()
+    hir_units = [cyc] + [g for g in facts.family(facts.fns.get(cyc.id, cyc)) if g.id != cyc.id and g.kind != 'Closure' and g.hir and g.qname not in known]
+    for e, anc in (x for u in hir_units for x in hir_walk(u.hir['body'])):
         if e['k'] == 'if' and any(x['k'] == 'mcall' and x['name'] == 'is_empty' for x, _ in hir_walk(e['cond'])):
             if any(x['k'] == 'ret' for x, _ in hir_walk(e['then'])) and any(x['k'] == 'call' and variant_of(x['f']) == 'Err' for x, _ in hir_walk(e['then'])):
                 ok = True
